@@ -347,6 +347,10 @@ class Gen:
             lenexpr = str(n) if r.random() < 0.5 else '(%s)' % self.len_expr(n)
             return '%s %s[%s]; for (int %s = 0; %s < %d; %s += 1) { %s[%s] = %s; }' % (
                 el, name, lenexpr, i, i, n, i, name, i, fill)
+        if el == BYTE and self.feat['strings'] and r.random() < 0.5:
+            se = self.str_expr(1)
+            self.declare(Var(name, 'arr', const=True, arr=True, el=BYTE, length=None))
+            return 'const byte[] %s = %s is byte[];' % (name, se)
         src = self.vars(lambda v: v.arr and v.el == el)
         if src:
             s = r.choice(src)
@@ -444,8 +448,27 @@ class Gen:
         return s
 
     # ------------------------------------------------------------------ functions / program
+    def recursive_function(self):
+        """int rN(int d, int acc): bounded recursion (depth clamped to 3) with work on the way down and up"""
+        r = self.r
+        name = self.fresh('rec')
+        d, acc = Var(self.fresh('p'), INT, const=True), Var(self.fresh('p'), INT)
+        f = Func(name, INT, [('int', d), ('int', acc)])
+        self.scopes.append([d, acc])
+        self.cur_func = f
+        pre = self.stmt(1)
+        step = self.int_expr(1)
+        post = self.stmt(1)
+        self.cur_func = None
+        self.scopes.pop()
+        self.funcs.append(f)
+        return ('int %s(int %s, int %s) { if (%s <= 0 or %s > 3) { return %s; } %s int up = %s(%s - 1, %s + %s); %s return up + %s; }'
+                % (name, d.name, acc.name, d.name, d.name, acc.name, pre, name, d.name, acc.name, step, post, d.name))
+
     def function(self, idx):
         r = self.r
+        if self.feat['recursion'] and r.random() < 0.25:
+            return self.recursive_function()
         ret = r.choice([INT, INT, BOOL, BYTE, 'empty', STRING])
         if ret == STRING and not self.feat['strings']:
             ret = INT
